@@ -359,6 +359,7 @@ pub fn gen_session(seed: u64, run: u64, thorough: bool) -> Session {
         ops,
         crashes: Vec::new(),
         decisions: None,
+        hold: None,
         meta: json!({}),
     }
 }
